@@ -1985,6 +1985,7 @@ int32 parseServerKeyExchange(ssl_t *ssl,
                 ssl->err = SSL_ALERT_ILLEGAL_PARAMETER;
                 psTraceErrr("Unsupported ECDHE group in SKE\n");
                 psTraceIntInfo("Group ID: %d\n", i);
+                return MATRIXSSL_ERROR;
             }
             ssl->sec.peerCurveId = i;
 
